@@ -22,7 +22,7 @@ Hypothesis prog_VerifyHash : plookup "VerifyHash" prog = Some fn_VerifyHash.
 
 Theorem VerifyHash_is_verify_hash fuel (d : list Z) (h : N) :
   call prog hash_ext fuel "VerifyHash" [VInts d; VInt (Z.of_N h)] =
-  RRet (if verify_hash (ns d) h then VNil else VErr "fmt.Errorf: data hash mismatch").
+  RRet (if verify_hash (ns d) h then VNil else VErr "fmt.Errorf").
 Proof.
   unfold call. rewrite prog_VerifyHash. unfold fn_VerifyHash. cbn [f_params f_body bind_params]. go_run.
   unfold hash_ext at 1. go_run. rewrite of_N_eqb. unfold verify_hash.
